@@ -43,8 +43,13 @@ def skew_cell(base, P):
     return [float(x) for x in tools.a_to_cell(A @ np.array(P, float).T)]
 
 
+THOROUGH_BOXES = {'fcc-primitive': [4.0, 4.0, 4.0, 60.0, 60.0, 60.0], 'hexagonal': [3.0, 3.0, 5.0, 90.0, 90.0, 120.0]}
+
+
 def units(tier):
     us = []
+    if tier != 'quick':
+        BOXES.update(THOROUGH_BOXES)
     for m in ('tools', 'laue'):
         for b in list(BOXES):
             us.append({'name': '%s/%s' % (m, b), 'module': m, 'box': b, 'cost': 5})
@@ -106,7 +111,9 @@ class Ratio:
 def run_unit(u, desc, tier, seed):
     modname, box = desc['module'], desc['box']
     mod = importlib.import_module('xfab.' + modname)
-    if box in BOXES:
+    if box in THOROUGH_BOXES:
+        c0 = THOROUGH_BOXES[box]
+    elif box in BOXES:
         c0 = BOXES[box]
     else:
         c0 = skew_cell(*SKEW[box])
@@ -211,6 +218,19 @@ def run_unit(u, desc, tier, seed):
         out, sel = leaf['result']
         if sel is None or any(x is None for x in sel):
             sel = None
+        # translator validation at a solver witness of this path
+        stw, mw, _ = smt.solve(pre_l, timeout_s=10, cvc5_timeout_s=0)
+        if stw == 'sat' and mw and sel is not None:
+            try:
+                envw = C.env_from_model(f, mw)
+                realv = np.asarray(mod.reduce_cell(C.cell_floats(envw), UVW), float)
+                symv = np.array([C.evalq(x, envw) for x in out])
+                if C.close(realv, symv, 1e-6, 1e-7):
+                    u.validated += 1
+                else:
+                    u.notes.append('witness mismatch on %s: real %s symbolic %s' % (tag, np.round(realv, 6).tolist(), np.round(symv, 6).tolist()))
+            except Exception as ex:
+                u.notes.append('witness replay failed on %s: %r' % (tag, ex))
         if sel is None:
             # fewer than three vectors were selected: the reduced basis is not within the search range uvw=1 (outside the quantifier)
             u.notes.append('path %s: no complete basis within the search range (outside the bound)' % tag)
